@@ -9,6 +9,22 @@ Q = "/venv/bin/python /verif/fv/check.py {id} --tier quick"
 T = "/venv/bin/python /verif/fv/check.py {id} --tier thorough"
 
 CLAIMS = {
+    "C01": dict(
+        technique="abstract interpretation over a name-layout domain + symbolic evaluation of the temporaries protocol (static)",
+        engine="E2 layout + tmprules",
+        text="Static: python.Model's sorted argument lists, block statements, frozen calibration vector, execute() actuals, result zip and "
+             "by-name State construction are layout-typed for every model at once; python.BasicBlock's compile/execute follow the "
+             "temporaries protocol for both CSE settings; sympy is only called with its trusted signatures.",
+        note="Trusted base: sympy cse/simplify/lambdify preserve value under their default contracts; floating-point accuracy is not decided.",
+        ref="3/C01"),
+    "C08": dict(
+        technique="symbolic evaluation of both BasicBlock classes against a temporaries protocol (static)",
+        engine="tmprules",
+        text="Static: for both settings of the CSE flag, python.BasicBlock (_compile, execute) and cpp.BasicBlock (compile) are "
+             "symbolically evaluated and compared with the protocol: every temporary bound once, in cse order, before its first use, "
+             "from inputs and earlier temporaries only; the flag gates only cse()/simplify(); trusted sympy signatures only.",
+        note="Trusted base: sympy.cse ordering/fresh names, simplify/lambdify/ccode value preservation. Values themselves are not computed.",
+        ref="3/C08"),
     "C03": dict(
         technique="abstract interpretation over a name-layout domain (static, Python ast)",
         engine="E2 layout",
